@@ -50,10 +50,12 @@ def prune_opts(rng, kd=3600, allow_instant=True, allow_early=False):
             o[flag] = True
     if rng.random() < 0.15:
         o["cacheable_only"] = rng.choice([True, False])
+    # early-delete-index alone (without instant-delete) is documented to have no effect - and is NOT the excluded combination
+    if rng.random() < 0.2:
+        o["early_delete_index"] = True
     if allow_instant and rng.random() < 0.3:
         o["instant"] = True
-        if allow_early and rng.random() < 0.5:
-            o["early_delete_index"] = True
+        o["early_delete_index"] = allow_early and rng.random() < 0.5
     return o
 
 
@@ -64,6 +66,9 @@ def rand_cfg(rng):
         cfg["version"] = 1
     elif r < 0.5:
         cfg["compression"] = rng.choice([-5, 0, 1, 3, 19])
+    # a third of the scenarios write an index file after every few blobs: commands then produce several index files
+    if rng.random() < 0.35:
+        cfg["index_flush"] = rng.choice([1, 2, 3, 5])
     return cfg
 
 
